@@ -24,3 +24,14 @@ fn syntax_error_in_the_root_is_reported() {
     let d = a.diagnostics();
     assert!(!d.get(&ids[0]).cloned().unwrap_or_default().is_empty());
 }
+#[test]
+fn syntax_error_two_includes_deep_is_reported_there() {
+    let r = with_timeout(20, || {
+        let files = [("/main.td", "include \"a.td\"\ndef Top : A;\n"), ("/a.td", "include \"b.td\"\nclass A : B;\n"), ("/b.td", "class B;\nclas Broken;\n")];
+        let (a, ids) = analysis(&files);
+        let d = a.diagnostics();
+        (0..3).map(|i| d.get(&ids[i]).cloned().unwrap_or_default().iter().map(|x| (usize::from(x.location.range.start()), usize::from(x.location.range.end()))).collect::<Vec<_>>()).collect::<Vec<_>>()
+    }).expect("diagnostics did not return");
+    assert!(r[0].is_empty() && r[1].is_empty(), "WITNESS files the fault does not touch got diagnostics: {:?}", r);
+    assert!(r[2].iter().any(|(s, e)| *s <= 9 + 4 && *e >= 9), "WITNESS no diagnostic covers the syntax error `clas Broken;` (bytes 9..21) of /b.td, which is reached through two includes: {:?}", r[2]);
+}
